@@ -25,7 +25,7 @@ type callState struct {
 
 // Run executes one script and returns its trace.
 func Run(sc *Script) []trace.Event {
-	r := &run{sc: sc, rec: trace.New(), gids: map[uint64]int{}, pwIDs: map[string]int{}, batchIDs: map[string]int{},
+	r := &run{sc: sc, rec: trace.New(), gids: map[uint64]int{}, pwIDs: map[interface{}]int{}, batchIDs: map[interface{}]int{},
 		nextOut: map[string]int{}, log: map[string][]string{}, gates: newGates(), planned: map[[2]int]int{}}
 	cfg := sc.Cfg
 	bt := time.Duration(cfg.BatchTimeoutMs) * time.Millisecond
